@@ -43,6 +43,7 @@ Keep == UNCHANGED <<pc, loc, proc>>
 \* ---- the clauses of C03 / C04 on one store of an event
 StoreClauses(r, e, name) ==
     /\ P("C03", name \o ": stored per-proposal densities = saved proposals re-evaluated", r.densities_ok)
+    /\ P("C03", name \o ": densities of samples within eps of the unit-hypercube boundary", r.clip_ok)
     /\ P("C03", name \o ": meta-proposal density = mixture with weights counts/total", r.logQ_ok)
     /\ P("C03", name \o ": log-weight = unit-hypercube prior - meta-proposal", r.logW_ok /\ r.logU_ok)
     /\ P("C03", name \o ": samples in the unit hypercube", r.in_unit)
